@@ -233,9 +233,11 @@ def run(prop, replay_file=None):
                 with open(os.path.join(w, "live.cfg"), "w") as fh:
                     fh.write('SPECIFICATION %s\nCONSTANTS\n  Assets = {%s}\n  Bug = "none"\n  MaxOrders = %d\nINVARIANT C04_Status\n'
                              'PROPERTY C04_EventuallyFilled\nPROPERTY C04_FilledForGood\nPROPERTY C04_Step\nCHECK_DEADLOCK FALSE\n'
-                             % (spec_name, '"A"' if t == "quick" or not expect_ok else '"A", "B"', 2 if t == "quick" or not expect_ok else 3))
+                             % (spec_name, '"A"' if t == "quick" or not expect_ok else '"A", "B"', 2))
                 try:
-                    r = tlc.run(w, "MC_BrokerLive", "live.cfg", workers=16, timeout=3000)
+                    # (two assets and three orders took 40 minutes of liveness checking on a loaded machine: the thorough
+                    # tier widens the assets only)
+                    r = tlc.run(w, "MC_BrokerLive", "live.cfg", workers=16, timeout=7200)
                     if expect_ok:
                         rep.add_mc(r, "MC_BrokerLive (liveness under fairness)")
                         if not r.ok:
